@@ -117,6 +117,66 @@ fn many_tasks(rep: &Report, n: usize) {
     }
 }
 
+/// A replica that has never synchronized and holds no task, but does hold pending operations
+/// (create, change, purge again), meets a server that offers a snapshot: it holds data, so the
+/// snapshot must not replace it - afterwards it equals the replay of the chain like everyone else.
+/// Run on both storages (their `is_empty` implementations are separate code).
+fn pending_only_replica(rep: &Report) {
+    use crate::world::mserver::{ChainState, MServer};
+    use crate::world::proxy::Ctl;
+    use crate::world::replicas::{observe, tasks_str, tid, with_replica};
+    use crate::world::store::{Kind, Store};
+    use taskchampion::Operation;
+    for kind in [Kind::Mem, Kind::Sqlite] {
+        for shared in [true, false] {
+            // (stores are created outside the runtime: opening SQLite blocks on it)
+            let (mut a, mut b) = (Store::fresh(kind), Store::fresh(kind));
+            let r: Result<(), String> = crate::util::block_on(async {
+                let chain = std::sync::Arc::new(std::sync::Mutex::new(ChainState::default()));
+                let sync = async |st: &mut Store, who: usize, urg: Urg| -> Result<(), String> {
+                    let server = MServer::new(chain.clone(), who);
+                    server.ctl.urgency.lock().unwrap().1 = Some(urg.to_real());
+                    let mut boxed = server.boxed();
+                    with_replica(st, Ctl::new(), async |rp| rp.sync(&mut boxed, false).await.map_err(|e| format!("sync-failed: {e:#}"))).await
+                };
+                let upd = |t: u8, p: &str, old: Option<&str>, v: Option<&str>| Operation::Update { uuid: tid(t), property: p.into(), old_value: old.map(|s| s.to_string()), value: v.map(|s| s.to_string()), timestamp: ts(1) };
+                // A: a task, synchronized, snapshot uploaded
+                with_replica(&mut a, Ctl::new(), async |rp| rp.commit_operations(vec![Operation::Create { uuid: tid(1) }, upd(1, "p", None, Some("a"))]).await).await.map_err(|e| e.to_string())?;
+                sync(&mut a, 0, Urg::High).await?;
+                if chain.lock().unwrap().snapshots.is_empty() {
+                    return Err("harness: no snapshot was uploaded in the set-up".into());
+                }
+                // B: only pending operations, no task (the same task as A's, or another one)
+                let t = if shared { 1 } else { 2 };
+                with_replica(&mut b, Ctl::new(), async |rp| {
+                    rp.commit_operations(vec![Operation::Create { uuid: tid(t) }, upd(t, "q", None, Some("b")), Operation::Delete { uuid: tid(t), old_task: [("q".to_string(), "b".to_string())].into_iter().collect() }]).await
+                })
+                .await
+                .map_err(|e| e.to_string())?;
+                for _ in 0..2 {
+                    sync(&mut b, 1, Urg::None).await?;
+                    sync(&mut a, 0, Urg::None).await?;
+                }
+                let (oa, ob) = (observe(&mut a).await, observe(&mut b).await);
+                let want = crate::model::ops::replay_chain(chain.lock().unwrap().all_segments()).map_err(|e| format!("wire-format: {e}"))?;
+                if ob.tasks != want || oa.tasks != want {
+                    return Err(format!(
+                        "snapshot-replaced-data: a replica holding only pending operations synced against a server offering a snapshot and ends with {} (the other replica: {}), the chain replays to {}",
+                        tasks_str(&ob.tasks),
+                        tasks_str(&oa.tasks),
+                        tasks_str(&want)
+                    ));
+                }
+                Ok(())
+            });
+            rep.add("pending_only_replica_scenarios", 1);
+            if let Err(e) = r {
+                rep.violation(Violation::new(format!("{}:pending-only:{kind:?}", e.split(':').next().unwrap_or("")), e, json!({"kind": "c12-pending-only", "storage": kind, "shared_task": shared})));
+            }
+        }
+    }
+}
+
 /// Racing syncs while the server asks for snapshots: every snapshot uploaded in every
 /// interleaving must still be the state of exactly its version.
 fn races(rep: &Report, opts: &Opts) {
@@ -177,11 +237,12 @@ fn races(rep: &Report, opts: &Opts) {
 pub fn run(opts: &Opts) -> i32 {
     let rep = Report::new("C12", "model_checking", opts);
     rep.set("exhaustive", true);
-    rep.set("rule", "histories of create/update/delete/1MB-update/sync with the server's snapshot urgency in {None,Low,High} and avoid_snapshots in {false,true} chosen by the explorer at every sync; every uploaded snapshot is inflated and parsed independently (flate2 + serde_json::Value) and compared with the model replay of the chain up to exactly its version; every state additionally starts a brand-new replica against a server that serves the latest snapshot and has discarded all versions up to it; non-trivial = states whose chain carries a snapshot a fresh replica was started from, or that need rebasing to quiesce");
+    rep.set("rule", "histories of create/update/delete/1MB-update/sync with the server's snapshot urgency in {None,Low,High} and avoid_snapshots in {false,true} chosen by the explorer at every sync; every uploaded snapshot is inflated and parsed independently (flate2 + serde_json::Value) and compared with the model replay of the chain up to exactly its version; every state additionally starts a brand-new replica against a server that serves the latest snapshot and has discarded all versions up to it; plus a never-synchronized replica holding only pending operations meeting a snapshot, on both storages; non-trivial = states whose chain carries a snapshot a fresh replica was started from, or that need rebasing to quiesce");
     rep.assume("harness chain server implements docs/src/sync-protocol.md; a snapshot is served for the latest snapshotted version on the chain");
     rep.assume("'produced only when urgency meets the threshold' is asserted as snapshot => urgency>=threshold; the converse is only counted (urgency_met_but_no_snapshot)");
     run_spaces("C12", spaces(opts.tier), opts, &rep);
     many_tasks(&rep, if opts.tier == Tier::Quick { 2000 } else { 20000 });
+    pending_only_replica(&rep);
     races(&rep, opts);
     rep.finish()
 }
